@@ -252,4 +252,41 @@ theorem C03_yescrypt_reduction (D : Digests) (hD : D.WF) (p p' s s' H : Bytes)
   subst this
   exact ⟨Q.params, Q.salt, hd1, e1, e2⟩
 
+/-- scrypt: same parameters and salt, colliding KDF output -/
+theorem C03_scrypt_reduction (D : Digests) (hD : D.WF) (p p' s s' H : Bytes)
+    (h1 : cryptScrypt D p s = .ok H) (h2 : cryptScrypt D p' s' = .ok H) :
+    ∃ params salt h, D.yescrypt params salt p = some h ∧ D.yescrypt params salt p' = some h := by
+  have f1 := C01.C01_scrypt_fix D p s H h1
+  have f2 := C01.C01_scrypt_fix D p' s' H h2
+  unfold cryptScrypt at f1 f2
+  split at f1; · cases f1
+  rename_i hcond
+  rw [if_neg hcond] at f2
+  unfold cryptYescryptCore at f1 f2
+  split at f1; · cases f1
+  rename_i out1 ho1
+  split at f2; · cases f2
+  rename_i out2 ho2
+  simp only [Except.ok.injEq] at f1 f2
+  subst f1; subst f2
+  unfold yescryptR at ho1 ho2
+  split at ho1; · cases ho1
+  rename_i Q hQ
+  rw [hQ] at ho2
+  dsimp only at ho2
+  split at ho1; · cases ho1
+  rename_i hd1 e1
+  split at ho2; · cases ho2
+  rename_i hd2 e2
+  dsimp only at ho1 ho2
+  split at ho1; · cases ho1
+  split at ho2; · cases ho2
+  simp only [Option.some.injEq] at ho1 ho2
+  have ho := ho1.trans ho2.symm
+  simp only [List.append_cancel_left_eq] at ho
+  have := encode64_inj _ _ (by rw [hD.yes _ _ _ _ e1, hD.yes _ _ _ _ e2]) ho
+  subst this
+  exact ⟨Q.params, Q.salt, hd1, e1, e2⟩
+
+
 end Xc.C03
